@@ -34,3 +34,34 @@ func newSkipDelete(db db) db {
 		db: db,
 	}
 }
+
+// skipTombstonesDb hides, from iteration only, the keys whose value is the empty tombstone of enableDelete.
+// Unlike skipDeletedDb it keeps keys that are present with an empty value (a single existsByte).
+type skipTombstonesDb struct {
+	db
+}
+
+func (db *skipTombstonesDb) NewIterator(prefix []byte) StorageIterator {
+	return &skipTombstonesIterator{StorageIterator: db.db.NewIterator(prefix)}
+}
+
+type skipTombstonesIterator struct {
+	StorageIterator
+}
+
+func (i *skipTombstonesIterator) Next() bool {
+	for {
+		if !i.StorageIterator.Next() {
+			return false
+		}
+		if len(i.StorageIterator.Value()) > 0 {
+			return true
+		}
+	}
+}
+
+func newSkipTombstones(db db) db {
+	return &skipTombstonesDb{
+		db: db,
+	}
+}
